@@ -116,6 +116,30 @@ func init() {
 			Actions: map[string]int{"s.close <- true": 1},
 			Rets:    map[string]int{"nil": 0},
 		},
+		// pkg/v3/stores/metadata_store.go: a flag-based service - Start refuses while running, Close refuses while not
+		// running (known finding close_before_service_start), gives the block subscription back, then signals the loop
+		{
+			Name: "ms_start", Props: []string{"C18"},
+			File: "pkg/v3/stores/metadata_store.go", Func: "metadataStore.Start",
+			Atoms:   []atom{{"m.running.Load()", "running", "bool"}},
+			Actions: map[string]int{"m.running.Store(true)": 1, "for { }": 2},
+			Rets:    map[string]int{`fmt.Errorf("service already running")`: 1},
+		},
+		{
+			Name: "ms_loop_body", Props: []string{"C18"},
+			File: "pkg/v3/stores/metadata_store.go", Func: "metadataStore.Start", Loop: 1,
+			Atoms:   []atom{{"h := <-m.ch", "got_history", "bool"}, {"<-ctx.Done()", "ctx_done", "bool"}, {"<-m.stopCh", "stop_req", "bool"}},
+			Actions: map[string]int{"m.SetBlockHistory(h)": 1},
+			Rets:    map[string]int{"m.Close()": 2, "nil": 0},
+		},
+		{
+			Name: "ms_close", Props: []string{"C18"},
+			File: "pkg/v3/stores/metadata_store.go", Func: "metadataStore.Close",
+			Atoms:   []atom{{"!m.running.Load()", "not_running", "bool"}, {"m.running.Load()", "running", "bool"}, {"err != nil", "unsub_err", "bool"}},
+			Binders: map[string]map[string]string{"err := m.subscriber.Unsubscribe(m.chID)": {}},
+			Actions: map[string]int{"err := m.subscriber.Unsubscribe(m.chID)": 1, "m.stopCh <- struct{}{}": 2, "m.running.Store(false)": 3},
+			Rets:    map[string]int{`fmt.Errorf("service not running")`: 1, "err": 2, "nil": 0},
+		},
 		{
 			Name: "plugin_close", Props: []string{"C18"},
 			File: "pkg/v3/plugin/ocr3.go", Func: "ocr3Plugin.Close",
